@@ -3,6 +3,7 @@ import json
 
 import contracts.scalars as SC
 import spec.scalars_spec as SS
+from vf import engine_p
 from vf import engine_a, ref_coerce as R
 from vf.report import MachineryDefect, Run
 
@@ -318,6 +319,7 @@ def check(tier, seed):
     run.sample({"type": "[Inner!]", "value": [{"req": "r", "c": "BLUE"}], "expected_resolver_argument": [{"req": "r", "c": 3, "n": 7}]})
     run.trusted("vf/ref_coerce.py transcribes the specification's input coercion (sections 3.5-3.12, 6.1.2, 6.4.1)")
     run.assume("finite floats are modelled as arbitrary reals in the coerce_int proof (sound: the function only compares and truncates)")
+    engine_p.run(run, 'C07')
     return run.finish("other", "deductive: coerce_int accepts exactly the integral values of the signed 32-bit range for int / bool / float / None inputs "
                                "and raises only ValueError (z3); bounded: coercion conformance, rejection before resolvers run, literal == variable route",
                       checker_cmd="./check C07 --tier %s" % tier)
